@@ -46,6 +46,8 @@ var leafEntries = map[string][]string{
 // stateEntries: the functions whose per-call analysis starts from the initial package-level state (leafEntries plus
 // the scalar arithmetic of C06).
 var stateEntries = map[string][]string{
+	// what "the identity" is for Equal/IsIdentity: the constructors that hand it out
+	"C05": {"NewElement", "Element.Identity"},
 	"C06": {"Scalar.Add", "Scalar.Subtract", "Scalar.Multiply", "Scalar.Square", "Scalar.Invert", "Scalar.Pow", "Scalar.SetUInt64", "Scalar.One", "Scalar.MinusOne", "Scalar.Zero", "Scalar.Set", "Scalar.Copy"},
 }
 
